@@ -14,6 +14,8 @@ import CalmVerif.Proofs.UnparseEnd
 import CalmVerif.Proofs.UnparseTokens
 import CalmVerif.Proofs.UnparseDepth
 import CalmVerif.Proofs.UnparseFuel
+import CalmVerif.Proofs.UnparseLines
+import CalmVerif.Proofs.UnparsePos
 import CalmVerif.Model.UnparseInst
 
 namespace CalmVerif.Props.C20
@@ -323,6 +325,162 @@ example : valAll braceFree notCaseKind exampleTree = true ∧
      | .ok (chunks, _) => (chunks.map symOfChunk) ==
          [.opener, .indent, .nl, .other, .other, .dedent, .nl, .closer, .nl]
      | .error _ => false) = true := by decide
+
+/-! ### T: the lines of the FINAL text are indented by structural depth -/
+
+/-- D: the facts about the `indent` layout table the lifting from chunks to text uses: its only tuple
+normalisations are (Indent, Newline, Dedent) ↦ noop and (OptionalSpace | Space, EndStatement) ↦ `;`; the
+handlers of Indent / Dedent / Newline / the spaces / EndStatement are the expected ones; no other handler occurs. -/
+theorem indent_table_facts : IndentTable Gen.Rules.rs_indent.layout where
+  tuples := by decide
+  indent := by decide
+  dedent := by decide
+  newline := by decide
+  optSpace := by decide
+  space := by decide
+  endStatement := by decide
+  handlers := handlers_of_B (by decide)
+  net := indent_table_normalisations_balanced
+
+/-- the handler constants: newline string "\n", the implied space " " without source; the indentation in force
+is made of white space that is no line terminator (hypothesis on the indent string) -/
+theorem hdata_lines (indent : Option String) (hi : indentOK (effIndent hdataGen indent) = true) :
+    HDataLines hdataGen indent := ⟨by decide, by decide, by decide, hi⟩
+
+/-- every token fragment of the walk carries a source (NotImplemented or a sourcepath, never None) and — under
+`tokensEdgeB` — a text with clean edges; every layout chunk carries the table's handler -/
+theorem pretty_chunks_line (indent : Option String) (tree : Val) (chunks : List Chunk)
+    (hw : walkChunks (prettyCfg indent) tree () = .ok (chunks, ())) (ht : tokensEdgeB chunks = true) :
+    ∀ c ∈ chunks, ChunkLine (prettyCfg indent).layout c := by
+  have hok := out_chunkOK (walkChunks_outAny (prettyCfg indent) tree () chunks () hw)
+  have hres : ResolveStr (prettyCfg indent) := by
+    intro f hf
+    have : (prettyCfg indent).resolve = none := rfl
+    rw [this] at hf; cases hf
+  have hpos := walkChunks_pos (prettyCfg indent) hres tree () chunks () hw
+  intro c hc
+  cases c with
+  | layout m h n => exact hok _ hc
+  | frag f =>
+    refine ⟨?_, tokensEdgeB_spec ht (tokenFrags_mem hc)⟩
+    obtain ⟨n, s, hs, hsrc, _⟩ : TokFrag tree (prettyCfg indent).elisionSep f := hpos _ hc
+    rw [hsrc]
+    rcases srcAt_source hs with h | ⟨_, p, _, _, _, h⟩ <;> rw [h] <;> simp
+
+/--
+`pretty_lines_indented`.  For EVERY tree and every indent string whose effective indentation consists of
+white space that is no line terminator, let `chunks` be the chunk stream of the walk and the final text the
+fragments `flushAll … chunks` (= `list(pretty_printer(indent)(tree))`).  Under two decidable hypotheses on the
+stream —
+  * `tokensEdgeB`:       every token text is non-empty, does not begin with CR / LF and does not end with a line
+                         terminator (line terminators INSIDE tokens are allowed: lines that start inside a
+                         multi-line string or comment are not judged, exactly as in the check's judge);
+  * `lineStartsStable`:  the definitions issue no `Indent`, `Dedent` or space marker between the newline marker
+                         that starts a line and the first token of that line
+— `checkLines` accepts the final fragment stream: split it at the `"\n"` fragments of the newline handlers; every
+line that starts with a token (a token fragment, or `;` `{` `}` of a layout handler) consists, before that token,
+of EXACTLY the indentation string repeated `depth` times (nothing when that is empty), where `depth` is the
+STRUCTURAL DEPTH of that token (`printingDepths`: `Indent` minus `Dedent` markers of the enclosing definitions:
+block / function / object / switch braces and the bodies of case / default clauses); and the Indentator level
+is 0 again at the end.  No restriction on node kinds (switch statements included).
+Read on the TOKENS the structural depth is: brace tokens opened and not closed + open case / default bodies
+(brace-less `Indent` groups) − 1 if the line starts with a closing brace (`level_is_structural_depth`).
+Both hypotheses are evaluated by the model on every program of the tie (`drv_unparse linesok`: all hold) and are
+needed: see the kernel-evaluated witnesses below.
+-/
+theorem pretty_lines_indented (indent : Option String) (tree : Val) (chunks : List Chunk)
+    (hw : walkChunks (prettyCfg indent) tree () = .ok (chunks, ()))
+    (hi : indentOK (effIndent hdataGen indent) = true)
+    (ht : tokensEdgeB chunks = true)
+    (hs : lineStartsStable chunks = true) :
+    checkLines (effIndent hdataGen indent) (flushAll (prettyCfg indent) chunks none [] 0).1
+        (printingDepths chunks 0) (some []) = true ∧
+    (flushAll (prettyCfg indent) chunks none [] 0).2 = 0 := by
+  refine ⟨?_, ?_⟩
+  · exact flushAll_checkLines (prettyCfg indent) (hdata_lines indent hi) indent_table_facts chunks
+      (pretty_chunks_line indent tree chunks hw ht) hs
+  · exact level_returns_to_zero indent tree (flushAll (prettyCfg indent) chunks none [] 0).1 _
+      (by simp only [unparseWith, hw])
+
+/-- an indent string of non-terminator white space contains no line terminator -/
+theorem indentOK_clean (s : String) (h : indentOK s = true) : ∀ c ∈ s.toList, isLT c = false := by
+  intro c hc
+  simp only [indentOK, List.all_eq_true] at h
+  have := indentChar_facts c (h c hc)
+  simp only [isLT, Bool.or_eq_false_iff, beq_eq_false_iff_ne, ne_eq]
+  refine ⟨⟨⟨this.1, this.2.1⟩, ?_⟩, ?_⟩ <;> (intro he; subst he; have := h _ hc; revert this; decide)
+
+/--
+`pretty_text_ends_with_one_newline`: the end of the text under the same token hypothesis and `tailSafe`
+(every unconditional `Newline` among the markers after the last token is followed by a marker that always prints).
+-/
+theorem pretty_text_ends_with_one_newline (indent : Option String) (attrs : List (String × Val))
+    (chunks : List Chunk)
+    (hw : walkChunks (prettyCfg indent) (.node "ES5Program" attrs) () = .ok (chunks, ()))
+    (hi : indentOK (effIndent hdataGen indent) = true)
+    (ht : tokensEdgeB chunks = true)
+    (hsafe : tailSafe (normalize Gen.Rules.rs_indent.layout (trailing chunks [])) = true) :
+    EndsWithOneNewline (charsOf (flushAll (prettyCfg indent) chunks none [] 0).1) :=
+  ends_with_one_newline_partial indent attrs chunks hw (indentOK_clean _ hi) (tokensEdgeB_clean ht) hsafe
+
+/-! #### non-vacuity and necessity of the hypotheses (all evaluated by the kernel) -/
+
+def idn (s : String) : Val := .node "Identifier" [("value", .str s)]
+def stmt (v : Val) : Val := .node "ExprStatement" [("expr", v)]
+/-- a node that prints nothing: a `Comments` node without children -/
+def printsNothing : Val := .node "Comments" [("children", .list [])]
+
+/-- `function f() { switch (a) { case 1: b; break; case 2: default: { ({k: c}); } } }` -/
+def switchTree : Val :=
+  .node "ES5Program" [("children", .list [
+    .node "FuncDecl" [("elements", .list [
+        .node "Switch" [("case_block", .node "CaseBlock" [("children", .list [
+            .node "Case" [("elements", .list [stmt (idn "b"), .node "Break" [("identifier", .none)]]),
+              ("expr", .node "Number" [("value", .str "1")])],
+            .node "Case" [("elements", .list []), ("expr", .node "Number" [("value", .str "2")])],
+            .node "Default" [("elements", .list [.node "Block" [("children", .list [
+              stmt (.node "Object" [("properties", .list [.node "Assign" [
+                ("left", .node "PropIdentifier" [("value", .str "k")]), ("op", .str ":"), ("right", idn "c")]])])])]])]])]),
+          ("expr", idn "a")]]),
+      ("identifier", idn "f"), ("parameters", .list [])]])]
+
+/-- hypotheses, conclusion and printed text of one tree -/
+def linesReport (indent : Option String) (t : Val) : Option (Bool × Bool × Bool × Bool × String) :=
+  match walkChunks (prettyCfg indent) t () with
+  | .ok (cs, _) =>
+    let fs := (flushAll (prettyCfg indent) cs none [] 0).1
+    some (tokensEdgeB cs, lineStartsStable cs, tailSafe (normalize Gen.Rules.rs_indent.layout (trailing cs [])),
+      checkLines (effIndent hdataGen indent) fs (printingDepths cs 0) (some []), textOf fs)
+  | .error _ => none
+
+set_option maxRecDepth 1000000 in
+/-- a nested program with a switch, indent "\t": all hypotheses hold, every line is indented by its depth -/
+example : linesReport (some "\t") switchTree = some (true, true, true, true,
+    "function f() {\n\tswitch (a) {\n\t\tcase 1:\n\t\t\tb;\n\t\t\tbreak;\n\t\tcase 2:\n\t\tdefault:\n\t\t\t{\n\t\t\t\t{\n\t\t\t\t\tk: c\n\t\t\t\t};\n\t\t\t}\n\t}\n}\n") := by
+  decide
+
+set_option maxRecDepth 1000000 in
+/-- the same with indent "  " -/
+example : linesReport (some "  ") switchTree = some (true, true, true, true,
+    "function f() {\n  switch (a) {\n    case 1:\n      b;\n      break;\n    case 2:\n    default:\n      {\n        {\n          k: c\n        };\n      }\n  }\n}\n") := by
+  decide
+
+set_option maxRecDepth 1000000 in
+/-- `lineStartsStable` is needed: a `case` clause whose statements print nothing, used as an expression — the `;`
+starts a line at structural depth 0 but is indented by one level -/
+example : linesReport (some "  ") (.node "ES5Program" [("children", .list [
+      stmt (.node "Case" [("elements", .list [printsNothing, printsNothing]), ("expr", idn "a")])])])
+    = some (true, false, true, false, "case a:\n  \n  ;\n") := by decide
+
+set_option maxRecDepth 1000000 in
+/-- `tailSafe` is needed: statements that print nothing at the end of the program leave two newlines -/
+example : linesReport (some "  ") (.node "ES5Program" [("children", .list [stmt (idn "a"), printsNothing, printsNothing])])
+    = some (true, true, false, true, "a;\n\n") := by decide
+
+set_option maxRecDepth 1000000 in
+/-- `tokensEdgeB` is needed: after a token that ends with a line terminator the final newline is suppressed -/
+example : linesReport (some "  ") (.node "ES5Program" [("children", .list [stmt (idn "a\n")])])
+    = some (false, true, true, true, "a\n;") := by decide
 
 /-! ### the fuel of the walk -/
 
